@@ -29,6 +29,7 @@ def State.view (s : State) : View :=
 def View.gone (v : View) (i : Nat) : Bool := !(v.alive i) || !(v.running i)
 
 structure InvV (t : Topo) (v : View) : Prop where
+  srv : v.alive 0 = true
   half : ∀ i, v.half i = false
   wrk : ∀ i, t.kind i = .worker → v.running i = true
   clients : v.running 0 = false → ∀ c, v.copen c = false
@@ -43,6 +44,7 @@ structure InvV (t : Topo) (v : View) : Prop where
 def Inv (t : Topo) (s : State) : Prop := InvV t s.view
 
 theorem inv_init (t : Topo) : Inv t init where
+  srv := rfl
   half := fun _ => rfl
   wrk := fun _ _ => rfl
   clients := fun h => by simp [State.view, init] at h
@@ -87,12 +89,16 @@ theorem View.gone_mono {v v' : View} (ha : ∀ i, v'.alive i = true → v.alive 
   unfold View.gone at *
   cases h1 : v'.alive i <;> cases h2 : v'.running i <;> simp_all
 
-theorem InvV.kill {t : Topo} {v : View} (h : InvV t v) (w : Nat) : InvV t (killV v w) := by
+theorem InvV.kill {t : Topo} {v : View} (h : InvV t v) (w : Nat) (hw : w ≠ 0) : InvV t (killV v w) := by
   have hal : ∀ i, (killV v w).alive i = true → v.alive i = true := by
     intro i x; simp only [killV, upd_apply] at x; split at x <;> simp_all
   have hg := View.gone_mono (v := v) (v' := killV v w) hal (fun _ x => x)
-  refine ⟨h.half, h.wrk, h.clients, fun p e hc ha hr => h.down p e hc (hal p ha) hr, h.upc,
+  refine ⟨?_, h.half, h.wrk, h.clients, fun p e hc ha hr => h.down p e hc (hal p ha) hr, h.upc,
     fun e he hr ha hu => ?_, fun p e hc hr => ?_⟩
+  · have := h.srv
+    simp only [killV, upd_apply]
+    have : (0 : Nat) ≠ w := fun x => hw x.symm
+    simp [this, h.srv]
   · rcases h.upe e he hr (hal e ha) hu with h1 | h1
     · exact Or.inl (hg _ h1)
     · exact Or.inr h1
@@ -101,14 +107,14 @@ theorem InvV.kill {t : Topo} {v : View} (h : InvV t v) (w : Nat) : InvV t (killV
     · exact Or.inr (hg _ h1)
 
 theorem InvV.cClose {t : Topo} {v : View} (h : InvV t v) (c : Nat) : InvV t (cCloseV v c) := by
-  refine ⟨h.half, h.wrk, fun hr c' => ?_, h.down, h.upc, h.upe, h.sent⟩
+  refine ⟨h.srv, h.half, h.wrk, fun hr c' => ?_, h.down, h.upc, h.upe, h.sent⟩
   have := h.clients hr c'
   simp only [cCloseV, upd_apply]
   split <;> simp_all
 
 theorem InvV.upClose {t : Topo} {v : View} (h : InvV t v) (n : Nat)
     (heof : (v.alive (t.parent n) && v.downOpen n) = false) : InvV t (upCloseV v n) := by
-  refine ⟨h.half, h.wrk, h.clients, h.down, fun g hg hr => ?_, fun e he hr ha hu => ?_, h.sent⟩
+  refine ⟨h.srv, h.half, h.wrk, h.clients, h.down, fun g hg hr => ?_, fun e he hr ha hu => ?_, h.sent⟩
   · have := h.upc g hg hr
     simp only [upCloseV, upd_apply]; split <;> simp_all
   · simp only [upCloseV, upd_apply] at hu
@@ -129,7 +135,7 @@ theorem InvV.shut {t : Topo} (_wf : t.WF) {v : View} (h : InvV t v) {p : Nat} {x
   have hrl : ∀ i, (shutV t v p xc).running i = true → v.running i = true := by
     intro i x; simp only [shutV, upd_apply] at x; split at x <;> simp_all
   have hg := View.gone_mono (v := v) (v' := shutV t v p xc) (fun _ x => x) hrl
-  refine ⟨fun i => ?_, fun i hi => ?_, fun h0 c => ?_, fun q e hc haq hrq => ?_, fun g hg0 hrg => ?_,
+  refine ⟨h.srv, fun i => ?_, fun i hi => ?_, fun h0 c => ?_, fun q e hc haq hrq => ?_, fun g hg0 hrg => ?_,
     fun e he hre hae hue => ?_, fun q e hc hrq => ?_⟩
   · have := h.half i
     simp only [shutV, upd_apply]; split <;> simp_all
@@ -301,9 +307,12 @@ theorem step_inv {t : Topo} (wf : t.WF) {s s' : State} {l : Label} (hi : Inv t s
     simp only [step, crash] at h
     split at h
     · cases h
+    rename_i hg
+    simp only [Bool.not_eq_true', Bool.not_eq_false, Bool.and_eq_true, decide_eq_true_eq] at hg
+    have hn0 : n ≠ 0 := by omega
     split at h <;> cases h
-    · exact InvV.kill hi n
-    · exact InvV.kill hi n
+    · exact InvV.kill hi n hn0
+    · exact InvV.kill hi n hn0
   | recvEmp p e em f =>
     simp only [step] at h
     unfold recvEmp at h
@@ -434,22 +443,30 @@ theorem step_inv {t : Topo} (wf : t.WF) {s s' : State} {l : Label} (hi : Inv t s
     unfold wsend at h
     split at h
     · cases h
+    rename_i hg
+    have hw0 : w ≠ 0 := by
+      intro x; subst x
+      simp [isWorker, wf.kroot] at hg
     split at h <;> cases h
     · exact hi.congr rfl
     · exact hi.congr rfl
-    · exact InvV.kill hi w
+    · exact InvV.kill hi w hw0
   | wrecv w =>
     simp only [step] at h
     unfold wrecv at h
     split at h
     · cases h
+    rename_i hg
+    have hw0 : w ≠ 0 := by
+      intro x; subst x
+      simp [isWorker, wf.kroot] at hg
     split at h
     · split at h <;> cases h
-      exact InvV.kill hi w
+      exact InvV.kill hi w hw0
     · simp only at h
       split at h <;> cases h
-      · exact InvV.kill (t := t) (v := s.view) hi w
-      · exact InvV.kill (t := t) (v := s.view) hi w
+      · exact InvV.kill (t := t) (v := s.view) hi w hw0
+      · exact InvV.kill (t := t) (v := s.view) hi w hw0
       · exact hi.congr rfl
   | ccall c r =>
     simp only [step] at h
